@@ -290,10 +290,12 @@ long w_nlabels; long long w_v0, w_v1; long w_prvtype;
 #define L1(t) ((struct mark_label *) (t)->labels->hh.next)
 #define NL(t) ((t)->labels == NULL ? 0u : L1(t) == NULL ? 1u : 2u)
 /* label values reach the PCF as int (pcf_add_value(type, int value, label)) */
-#ifdef C17_ANYVALUE   /* twin group of finding F-C17-1: no carve-out, the conversion check must FAIL */
+#define REALLY_FITS_INT(v) ((v) >= INT_MIN && (v) <= INT_MAX)
+#ifdef C17_ANYVALUE   /* twin group of known finding F-C17-1: no carve-out; exactly the conversion check
+                       * `(int) l->value` in create_type must FAIL, everything else must still hold */
 #define FITS_INT(v) 1
 #else
-#define FITS_INT(v) ((v) >= INT_MIN && (v) <= INT_MAX)
+#define FITS_INT(v) REALLY_FITS_INT(v)
 #endif
 int c_create_type(struct pcf *pcf, struct mark_type *type)
 __CPROVER_requires(__CPROVER_is_fresh(type, sizeof(*type)) && type->type >= 0 && type->type < 100 && type->prvtype == 100 + type->type)
@@ -309,8 +311,8 @@ __CPROVER_ensures((RV == 0) == (g_lowfail == OLD(g_lowfail)))
 __CPROVER_ensures(g_l_pcftype.n == 1 && CALL_IS(g_l_pcftype, 0, pcf, 100 + type->type, 0, 0, type->title, NULL))
 /* every registered label, under its value, in that section */
 __CPROVER_ensures(RV != 0 || g_l_pcfval.n == NL(type))
-__CPROVER_ensures(RV != 0 || NL(type) < 1 || CALL_IS(g_l_pcfval, 0, PCFTYPE_OF(pcf), L0(type)->value, 0, 0, L0(type)->label, NULL))
-__CPROVER_ensures(RV != 0 || NL(type) < 2 || CALL_IS(g_l_pcfval, 1, PCFTYPE_OF(pcf), L1(type)->value, 0, 0, L1(type)->label, NULL))
+__CPROVER_ensures(RV != 0 || NL(type) < 1 || !REALLY_FITS_INT(L0(type)->value) || CALL_IS(g_l_pcfval, 0, PCFTYPE_OF(pcf), L0(type)->value, 0, 0, L0(type)->label, NULL))
+__CPROVER_ensures(RV != 0 || NL(type) < 2 || !REALLY_FITS_INT(L1(type)->value) || CALL_IS(g_l_pcfval, 1, PCFTYPE_OF(pcf), L1(type)->value, 0, 0, L1(type)->label, NULL))
 __CPROVER_ensures(RV == 0 || g_err > OLD(g_err))
 ;
 void h_create_type(void)
